@@ -80,6 +80,8 @@ def _one(prop, tier):
             pitfalls(ctx, f"{prop}.pitfalls", files)
             from .rules.common_pitfalls import dead_definitions
             dead_definitions(ctx, f"{prop}.pitfalls", files)
+            from .rules.common_pitfalls import memo_keys
+            memo_keys(ctx, f"{prop}.pitfalls", files)
             from .rules.common_params import option_forwarding, attribute_swap
             option_forwarding(ctx, f"{prop}.param-used", files)
             attribute_swap(ctx, f"{prop}.attr-swap", files)
